@@ -22,7 +22,7 @@ PROPS = {
                      "Astria.C13_validB_sound"],
         "harnesses": ["mempool"],
         "monitors": ["one_place", "no_silent_loss", "ready_consecutive", "no_used_nonce_after_maintenance",
-                     "ready_affordable", "parked_limits", "pending_nonce", "builder_order", "builder_priority",
+                     "ready_affordable", "recost_applied", "parked_limits", "pending_nonce", "builder_order", "builder_priority",
                      "dump_parse"],
         "scope_regex": r"^mempool ",
         "nontrivial_regex": r"^mempool (insert \S+ .* => (pending|parked)|remove \S+ \S+ => ok \| .* R=[^-]|maintain .* => ok \| P=[^-]|maintain .* => ok \| P=- K=[^-]|uncache )",
@@ -56,8 +56,14 @@ PROPS = {
                         "operations are atomic (one RwLock around MempoolInner); the CheckTx service's separate status-lookup and insert are not modelled",
                         "nonces below u32::MAX (insert panics on checked_add(1) at u32::MAX); removal cache bound 50 000 modelled and proved "
                         "about but not reached by the harness; state-read errors in run_maintenance (`continue`) not modelled",
-                        "FIXED FINDING F13 (fix: commit in known_findings.json): a demotion that fails inside run_maintenance loses the transaction silently; theorems "
-                        "C13_no_silent_loss_partial / _counterexample / _fixed state exactly what holds"],
+                        "finding F13 (repaired by /repo commit 8c2d14f, recorded as fixed in known_findings.json): in the pinned code a demotion "
+                        "that failed inside run_maintenance lost the transaction silently. The driver runs the model as the repaired code "
+                        "(cfg.reportFailedMoves = true), for which C13_no_silent_loss_fixed proves the full statement; "
+                        "C13_no_silent_loss_counterexample keeps the pinned behaviour (reportFailedMoves = false) as a kernel-checked regression "
+                        "witness; C13_no_silent_loss_partial holds for both",
+                        "'current cost' of a transaction in the monitors recost_applied / ready_affordable = the costs handed to insert, replaced at "
+                        "every re-costing maintenance it survives by fee-table base fee + transferred amount (computed from the op lines, not from "
+                        "the mempool's answers)"],
         "explanation": "invariant (container order, one-place counts, nonce-gap, affordability, parked limits, ledger of accepted ids) proved "
                        "by induction over all valid operation sequences; builder-queue order by sortedness of the priority sort; post-condition "
                        "of maintenance for every state; correspondence on complete state dumps of the real Mempool",
@@ -72,14 +78,16 @@ TEXT = {
                 "set is exactly the ids held, each exactly once, ready or parked, and transaction_status/len agree with that; ready nonces of "
                 "an account are gap-free from the nonce last shown; ready costs are covered by the balances last validated against; builder_queue "
                 "is a permutation of the ready set with lower nonce first per account and action group; after maintenance nothing below the chain "
-                "nonce remains; parked limits hold. 'Never silently lost' is proved in the form that holds for the code as it is (accepted ids "
-                "are tracked, in the removal cache, acknowledged, evicted at the 50 000 bound, or dropped by a failed move in maintenance), with a "
-                "kernel-checked counterexample for the full statement and a proof of the full statement for the proposed one-line fix. Every run "
+                "nonce remains; parked limits hold. 'Never silently lost' (accepted ids are tracked, in the removal cache, acknowledged, or "
+                "evicted at the 50 000 bound) is proved in full for the code as it is since the repair of finding F13 (/repo commit 8c2d14f: a "
+                "failed demotion/promotion in maintenance is reported as InternalError); the pinned behaviour is kept as a kernel-checked "
+                "counterexample theorem, and a weaker form (… or dropped by a failed move in maintenance) is proved for both. Every run "
                 "drives the real Mempool with signed transactions of all four action groups, diffs its complete private state and query answers "
                 "with the model after each op and evaluates the same spec on the implementation's own values.",
         "design_ref": "DESIGN.md §6 C13",
-        "note": "Trusted: Lean kernel, hand-written model, harness/driver, paused tokio clock, cnidarium StateDelta. Fixed finding F13 (silent "
-                "loss on failed demotion) is reported as KNOWN-FINDING; any other loss is a VIOLATION. Service-level interleaving (separate lock "
+        "note": "Trusted: Lean kernel, hand-written model, harness/driver, paused tokio clock, cnidarium StateDelta. Finding F13 (silent "
+                "loss on failed demotion) is repaired (8c2d14f) and recorded as fixed: any loss, including a regression of F13 (corpus sessions "
+                "A-C), is a VIOLATION. Service-level interleaving (separate lock "
                 "acquisitions in CheckTx) not modelled.",
         "technique": "Lean 4 proof (inductive invariant over operation sequences) + differential correspondence on full state dumps + "
                      "spec monitors on the implementation",
